@@ -17,7 +17,7 @@ ASSUMPTIONS = [
     "int ** negative legitimately gives float; roots of negative magnitudes are outside the statement (skipped, counted)",
     "NotImplemented results are followed to what Python finally does (TypeError)",
 ]
-SHARDS = {"quick": 2, "thorough": 14}
+SHARDS = {"quick": 4, "thorough": 14}
 
 MAG_KINDS = ["int", "float", "decimal"]
 
@@ -207,7 +207,7 @@ def run(ctx):
         extra = rng.choice(["meter", "second", "gram", "kelvin", "coulomb"])
         return u * m.Unit._by_name[extra] ** rng.choice([1, -1, 2])
 
-    n = ctx.scale(30000, 2_000_000)
+    n = ctx.scale(80000, 2_000_000)
     binops = [("mul", operator.mul), ("truediv", operator.truediv)]
     for i in range(n):
         ctx.count("evaluations")
@@ -306,6 +306,8 @@ def run(ctx):
             ctx.count(f"magnitude_arithmetic/{type(e).__name__}")
         except TypeError as e:
             ctx.count("type_errors_from_unsupported_operand_kinds")
+        except Exception as e:  # e.g. an internal error of the conversion planner: C07's business, not C03's
+            ctx.count(f"other_exceptions_from_the_library/{type(e).__name__}")
 
     # every cell of the operator x operand-kind table must have been exercised
     missing = []
